@@ -1,6 +1,6 @@
 (* C02 — property theorems.  Only statements, `exact`, and Print Assumptions. *)
 From Sdns Require Import Common.Base Gen.C02 C02.Model C02.Spec
-  C02.ModelNsec3 C02.Proofs_Order C02.Proofs_Nsec C02.Proofs_Spec C02.Proofs_NsecTop C02.Proofs_Nsec3 C02.ModelCut C02.Proofs_Cut C02.ModelAuth C02.ModelShared C02.Proofs_Shared C02.Proofs_Gen C02.Proofs_Mix C02.Proofs_Walk C02.Proofs_Zone C02.Proofs_Wild.
+  C02.ModelNsec3 C02.Proofs_Order C02.Proofs_Nsec C02.Proofs_Spec C02.Proofs_NsecTop C02.Proofs_Nsec3 C02.ModelCut C02.Proofs_Cut C02.ModelAuth C02.ModelShared C02.Proofs_Shared C02.Proofs_Gen C02.Proofs_Mix C02.Proofs_Walk C02.Proofs_Zone C02.Proofs_Wild C02.Proofs_Sets.
 Open Scope N_scope.
 
 (* ---- canonical order (RFC 4034 §6.1) is a total order *)
@@ -538,3 +538,22 @@ Print Assumptions wild_answer_nsec_sound.
 Theorem wild_ent_repair_in_tree : wild_ent_fixed = true.
 Proof. exact gen_wild_ent_fixed. Qed.
 Print Assumptions wild_ent_repair_in_tree.
+
+(* ---- wave 9: dnssec.typesSet and dnssec.aggressiveNSEC3Covers, translated by srcgen on every run (Go maps as
+   association lists, bytes.Compare) and equal to the model functions every verifier / evaluator model is written with.
+   typesSet — "is one of these types in the bitmap": the test behind NODATA ("a type that is present is never reported
+   absent"), delegation / DNAME / SOA recognition and the CNAME check — for EVERY bitmap and EVERY list of wanted types
+   (no premise: the map the code builds has unique keys by construction).  aggressiveNSEC3Covers — the NSEC3 interval
+   test of the RFC 8198 evaluator incl. the wrap-around and the single-record ring — for owner / next / name hashes that
+   are octet strings of one length (SHA-1: 20 octets), on the numbers they denote (be = big endian); the model's hash
+   values are such numbers up to an order isomorphism (ranks), and covers3 uses only their order *)
+Theorem types_set_code_is_model : forall set types, go_typesSet set types = types_set set types.
+Proof. exact gen_types_set_lemma. Qed.
+Print Assumptions types_set_code_is_model.
+Theorem nsec3_covers_code_is_model :
+  forall (rr : T_NSEC3) (oh nh h : list N) flags types idx,
+  length oh = length h -> length nh = length h -> octets oh -> octets nh -> octets h ->
+  go_aggressiveNSEC3Covers (mk_T_aggressiveNSEC3Entry rr oh nh) h
+  = covers3 (mk_entry3 (be oh) (be nh) flags types idx) (be h).
+Proof. exact gen_nsec3_covers_lemma. Qed.
+Print Assumptions nsec3_covers_code_is_model.
